@@ -485,6 +485,12 @@ impl LoadBalancingPolicy for ProbePolicy {
     }
 }
 
+enum Probe {
+    Served(usize, u64, u16),
+    NothingSent,
+    TimedOut,
+}
+
 static PERSISTENT: std::sync::atomic::AtomicUsize = std::sync::atomic::AtomicUsize::new(0);
 
 struct Running {
@@ -671,12 +677,22 @@ impl Running {
         )
     }
     /// cuts the `count` oldest pool connections of node i and waits until the pools are established again
-    async fn kill_round(&mut self, i: usize, count: usize) -> bool {
+    async fn kill_round(&mut self, i: usize, count: usize, shift: usize) -> bool {
         let ids: Vec<u64> = self.judged.iter().filter(|(_, (nd, _))| *nd == i).map(|(id, _)| *id).take(count).collect();
         for id in &ids {
             self.cluster.close_connection(i, *id, CutKind::Rst);
         }
         self.rounds[i].push(ids.len());
+        // shift the mock's plain-port round-robin by a few raw TCP connections (accepted, never used): the
+        // replacements opened through the plain port then land on shards that are still covered -> excess
+        // connections, kept until the pool is full and trimmed then
+        if shift > 0 {
+            for _ in 0..shift {
+                if let Ok(s) = tokio::net::TcpStream::connect(self.cluster.contact_point(i)).await {
+                    drop(s);
+                }
+            }
+        }
         // the cut connections must be gone from the mock before the counts can be trusted
         let t = Instant::now();
         while t.elapsed() < Duration::from_secs(3) && self.live().keys().any(|c| ids.contains(c)) {
@@ -689,46 +705,51 @@ impl Running {
         self.cluster.connections(None).iter().filter(|c| c.registered.is_empty()).map(|c| (c.conn_id, (c.node, c.shard))).collect()
     }
     /// one request aimed at (node, shard) through the pinning policy: which connection served it
-    async fn probe_once(&mut self, node: usize, shard: u32) -> Option<(usize, u64, u16)> {
+    async fn probe_once(&mut self, node: usize, shard: u32) -> Probe {
         *self.probe_pol.target.lock().unwrap() = (host_id_for(node), shard);
         let p = self.probe.clone().unwrap();
         let id = self.cluster.prepared_id(PROBE_TEXT);
         let _ = self.drain();
-        let _ = tokio::time::timeout(Duration::from_secs(5), self.session.execute_unpaged(&p, ())).await;
+        let res = tokio::time::timeout(Duration::from_secs(5), self.session.execute_unpaged(&p, ())).await;
         for e in self.drain() {
             if let Ev::In { opcode, body, .. } = &e.ev {
                 if *opcode == op::EXECUTE && wire::decode_execute(body, false).map(|x| x.id == id).unwrap_or(false) {
-                    return Some((e.node, e.conn_id, e.shard));
+                    return Probe::Served(e.node, e.conn_id, e.shard);
                 }
             }
         }
-        None
+        // the harness gave up (environment) vs. the driver answered without sending anything
+        if res.is_err() { Probe::TimedOut } else { Probe::NothingSent }
     }
-    /// Establishes which connections the driver's pools hold: waits for the configured counts, then probes
-    /// every (node, shard) until every live connection has served a probe aimed at its node and no probe
-    /// aimed at a shard the mock has a connection for was served elsewhere.  A pass is retried until it is
-    /// consistent; an inconsistency that persists for 1.5 s is kept (its P lines then show what happened).
+    /// Establishes which connections the driver's pools hold.  Waits until the configured counts are reached AND
+    /// every live connection has completed its handshake (READY written by the mock), then probes every
+    /// (node, shard) until every live connection has served a probe aimed at its node and no probe aimed at a
+    /// shard the mock has a connection for was served elsewhere.  An inconsistent pass is believed only when the
+    /// SAME mismatches (node, wanted shard, serving shard) are observed in consecutive passes for 1.5 s, counted
+    /// from the first inconsistent pass (its P lines then show what happened).  A probe the harness abandons
+    /// (5 s timeout) is environment: the pass does not count, and persisting timeouts end in not-run.
     async fn establish(&mut self) -> bool {
         let t0 = Instant::now();
         let k = self.c.cfg.pool_n;
+        let mut first_bad: Option<(Instant, Vec<(usize, u32, u16)>)> = None;
         loop {
-            // an inconsistent pass is only believed when it persists: 1.5 s (200 ms once three scenarios
-            // of this run have shown a persistent inconsistency: the run is then a violation anyway and
-            // must not take 500 x 1.5 s)
+            if t0.elapsed() > Duration::from_secs(12) {
+                return false;
+            }
+            // 200 ms once three scenarios of this run have shown a persistent inconsistency: the run is then a
+            // violation anyway and must not take 500 x 1.5 s
             let patience = if PERSISTENT.load(std::sync::atomic::Ordering::Relaxed) >= 3 { 200 } else { 1500 };
-            let late = t0.elapsed() > Duration::from_millis(patience);
-            if self.settled_now(true).is_none() {
-                if t0.elapsed() > Duration::from_secs(8) {
-                    return false;
-                }
+            let _ = self.drain();
+            let live = self.live();
+            if self.settled_now(true).is_none() || !live.keys().all(|c| self.life.get(c).is_some_and(|l| l.3)) {
                 tokio::time::sleep(Duration::from_millis(4)).await;
                 continue;
             }
-            let live = self.live();
             let mut seen: HashSet<u64> = HashSet::new();
-            let mut consistent = true;
+            let mut bad: Vec<(usize, u32, u16)> = Vec::new();
+            let mut timed_out = false;
             let mut lines: Vec<(String, String)> = Vec::new();
-            for i in 0..self.c.nodes.len() {
+            'pass: for i in 0..self.c.nodes.len() {
                 if self.expected(i, true) == 0 {
                     continue;
                 }
@@ -746,16 +767,20 @@ impl Running {
                     let mut first: Option<u16> = None;
                     for _ in 0..tries {
                         match self.probe_once(i, want).await {
-                            Some((nd, cid, sh)) => {
+                            Probe::Served(nd, cid, sh) => {
                                 if first.is_none() {
                                     first = Some(sh);
                                 }
                                 if nd != i || !live.contains_key(&cid) || (!here.is_empty() && sh as u32 != want) {
-                                    consistent = false;
+                                    bad.push((i, want, sh));
                                 }
                                 seen.insert(cid);
                             }
-                            None => consistent = false,
+                            Probe::NothingSent => bad.push((i, want, u16::MAX)),
+                            Probe::TimedOut => {
+                                timed_out = true;
+                                break 'pass;
+                            }
                         }
                         if !here.is_empty() && here.iter().all(|c| seen.contains(c)) {
                             break;
@@ -768,18 +793,35 @@ impl Running {
                     lines.push((case, format!("{} {}", first.map(|s| format!("{:x}", s)).unwrap_or("none".into()), pools_s)));
                 }
             }
+            if timed_out {
+                first_bad = None;
+                tokio::time::sleep(Duration::from_millis(50)).await;
+                continue;
+            }
+            bad.sort();
+            bad.dedup();
             let covered = live.keys().all(|c| seen.contains(c));
             let unchanged = self.live() == live && self.settled_now(true).is_some();
-            if covered && unchanged && (consistent || late) {
-                if !consistent {
-                    PERSISTENT.fetch_add(1, std::sync::atomic::Ordering::Relaxed);
+            if covered && unchanged {
+                if bad.is_empty() {
+                    self.judged = live;
+                    self.ptie = lines;
+                    return true;
                 }
-                self.judged = live;
-                self.ptie = lines;
-                return true;
-            }
-            if t0.elapsed() > Duration::from_secs(8) {
-                return false;
+                // believed only if the very same mismatches persist from pass to pass for `patience`
+                match &first_bad {
+                    Some((since, prev)) if *prev == bad => {
+                        if since.elapsed() > Duration::from_millis(patience) {
+                            PERSISTENT.fetch_add(1, std::sync::atomic::Ordering::Relaxed);
+                            self.judged = live;
+                            self.ptie = lines;
+                            return true;
+                        }
+                    }
+                    _ => first_bad = Some((Instant::now(), bad)),
+                }
+            } else {
+                first_bad = None;
             }
             tokio::time::sleep(Duration::from_millis(10)).await;
         }
@@ -1317,7 +1359,8 @@ async fn run_cluster(r: &mut Rng, c: &ClusterC, nkeys: usize, out: &mut Out) {
             let i = *r.pick(&up);
             let have = run.judged.values().filter(|(nd, _)| *nd == i).count();
             let count = match r.below(4) { 0 => have, 1 => 1, _ => r.range(1, have as u64) as usize };
-            if !run.kill_round(i, count).await {
+            let shift = if c.nodes[i].nr > 1 && r.chance(2, 3) { r.range(1, c.nodes[i].nr as u64 - 1) as usize } else { 0 };
+            if !run.kill_round(i, count, shift).await {
                 out.case(&format!("K {} {} {} {}", cf, st.field(), tabs_s(&hist[j]), "n"), "skip:refill-not-established -");
                 broken = true;
                 break;
@@ -1378,7 +1421,7 @@ async fn replay_line(case: &str, out: &mut Out) {
                 if f[3] != "-" {
                     for k in f[3].split(',') {
                         let want = usize::from_str_radix(&k[1..], 16).unwrap();
-                        if !run.kill_round(0, want).await {
+                        if !run.kill_round(0, want, 1).await {
                             ok = false;
                             break;
                         }
